@@ -27,6 +27,7 @@ fn dispatch<C: Check>(c: &C, mode: &str, args: &[String]) -> i32 {
         "quick" => engine::run_batch(c, Tier::Quick).exit,
         "thorough" => engine::run_batch(c, Tier::Thorough).exit,
         "replay" => engine::replay(c, Path::new(&args[0])),
+        "one" => engine::one(c, args.first().and_then(|s| s.parse().ok()).unwrap_or(0), Tier::Quick),
         "selftest" => {
             let n = args.first().and_then(|s| s.parse().ok()).unwrap_or(300);
             engine::selftest(c, n, Tier::Quick)
